@@ -18,6 +18,7 @@ import (
 	"google.golang.org/genproto/googleapis/api/annotations"
 	"google.golang.org/grpc"
 	"google.golang.org/grpc/codes"
+	"google.golang.org/grpc/metadata"
 	"google.golang.org/grpc/stats"
 	"google.golang.org/grpc/status"
 	"google.golang.org/protobuf/encoding/protojson"
@@ -52,6 +53,7 @@ type Case struct {
 	Stats     bool   `json:"stats"`
 	Behaviour string `json:"behaviour"` // pass | replace-reply | replace-error | context
 	Proxied   bool   `json:"proxied"`   // the service is a backend registered with RegisterConn
+	Meta      bool   `json:"meta"`      // the handler sets header and trailer metadata
 }
 
 // The proxied variant: one real backend serves un.C18 with the handlers of
@@ -268,6 +270,10 @@ func execute(c Case, unaryInt, streamInt, withStats bool, behaviour string) (run
 	unary := func(ctx context.Context, fm string, req *dynamicpb.Message) (proto.Message, error) {
 		hl.ran = true
 		hl.recv++
+		if c.Meta {
+			grpc.SetHeader(ctx, metadata.Pairs("x-h", "1"))
+			grpc.SetTrailer(ctx, metadata.Pairs("x-t", "2"))
+		}
 		hl.sawCtx = ctx.Value(ctxKey{}) == fm
 		if c.FailAfter >= 0 {
 			hl.err = errScripted
@@ -278,6 +284,10 @@ func execute(c Case, unaryInt, streamInt, withStats bool, behaviour string) (run
 	}
 	stream := func(full string, in, out protoreflect.MessageDescriptor, ss grpc.ServerStream) error {
 		hl.ran = true
+		if c.Meta {
+			ss.SetHeader(metadata.Pairs("x-h", "1"))
+			ss.SetTrailer(metadata.Pairs("x-t", "2"))
+		}
 		hl.sawCtx = ss.Context().Value(ctxKey{}) == full
 		single := strings.HasSuffix(full, "/ServerS")
 		for {
@@ -545,6 +555,7 @@ func genCase(t *rapid.T) Case {
 	c.StreamInt = rapid.Bool().Draw(t, "streamInt")
 	c.Stats = rapid.Bool().Draw(t, "stats")
 	c.Behaviour = rapid.SampledFrom([]string{"pass", "pass", "replace-reply", "replace-error", "context"}).Draw(t, "behaviour")
+	c.Meta = rapid.Bool().Draw(t, "meta")
 	return c
 }
 
